@@ -164,6 +164,14 @@ def batch_special_value_table(ctx):
     unary = {"abs": pt.abs, "sqrt": pt.sqrt, "exp": pt.exp, "log": pt.log, "sin": pt.sin, "cos": pt.cos, "tanh": pt.tanh,
              "isnan": pt.isnan, "neg": lambda a: -a, "square": lambda a: a * a, "pow2": lambda a: a ** 2,
              "pow0": lambda a: a ** 0, "logical_not": pt.logical_not, "arctan": pt.arctan}
+    npf = {"maximum": np.maximum, "minimum": np.minimum, "add": np.add, "sub": np.subtract, "mul": np.multiply,
+           "truediv": np.true_divide, "less": np.less, "less_equal": np.less_equal, "greater": np.greater,
+           "greater_equal": np.greater_equal, "equal": np.equal, "not_equal": np.not_equal,
+           "where-cond": lambda a, b: np.where(a, b, 7.0), "where-less": lambda a, b: np.where(np.less(a, b), a, b),
+           "logical_and": np.logical_and, "logical_or": np.logical_or, "arctan2": np.arctan2,
+           "abs": np.abs, "sqrt": np.sqrt, "exp": np.exp, "log": np.log, "sin": np.sin, "cos": np.cos, "tanh": np.tanh,
+           "isnan": np.isnan, "neg": np.negative, "square": np.square, "pow2": lambda a: a ** 2, "pow0": lambda a: a ** 0,
+           "logical_not": np.logical_not, "arctan": np.arctan}
     jobs, meta = [], []
     inp = {"x": xa, "y": ya}
     for nm, f in fns.items():
@@ -197,6 +205,19 @@ def batch_special_value_table(ctx):
                                   f"{nm} ({variant}): {r.stage} failed: {r.error[:300]}", {"function": nm, "variant": variant})
                 continue
             ref = evaluate(pt.make_dict_of_named_arrays({"o": node}), inp)["o"]
+            # the API function applied by NumPy itself (the graph evaluation above follows pytato's own
+            # decomposition of e.g. minimum into where/isnan and cannot see a wrong decomposition)
+            if nm in npf:
+                a = {"xy": (xa, ya), "yx": (ya, xa), "x-scalar": (xa, 0.25), "scalar-x": (0.25, xa),
+                     "x-nan": (xa, float("nan")), "inf-x": (float("inf"), xa), "x": (xa,)}[variant]
+                direct = np.asarray(npf[nm](*a))
+                if not close(direct.astype(ref.dtype), ref):
+                    ctx.violation(f"loopy-special-values:api-decomposition:{nm}",
+                                  f"{nm} ({variant}): the graph pytato builds for it does not denote NumPy's {nm} on "
+                                  f"special values", {"function": nm, "variant": variant,
+                                                      "graph": ref.tolist(), "numpy": direct.tolist()})
+                    dis += 1
+                    continue
             got = r.outputs[0].get("o")
             if got is None or not close(got, ref):
                 bad = [] if got is None else [i for i in range(ref.size)
@@ -210,6 +231,113 @@ def batch_special_value_table(ctx):
                               {"function": nm, "variant": variant, "positions": bad[:20]})
     ctx.note_batch("special-value-table(function x value-class pairs)", len(jobs), dis, exhaustive=True,
                    value_classes=[str(v) for v in vals])
+
+
+def _num_close(got, ref, exact=False):
+    """value comparison across (recorded) dtype deviations: both sides as complex/float"""
+    got, ref = np.asarray(got), np.asarray(ref)
+    if got.shape != ref.shape:
+        return False
+    if exact and got.dtype.kind in "biu" and ref.dtype.kind in "biu":
+        return bool(np.array_equal(got.astype(np.int64), ref.astype(np.int64)))
+    single = any(d in (np.dtype("float32"), np.dtype("complex64")) for d in (got.dtype, ref.dtype))
+    with np.errstate(all="ignore"):
+        return close(got.astype(np.complex128) if got.dtype.kind == "c" or ref.dtype.kind == "c" else got.astype(np.float64),
+                     ref.astype(np.complex128) if got.dtype.kind == "c" or ref.dtype.kind == "c" else ref.astype(np.float64),
+                     exact=False, single=single)
+
+
+def batch_api_table(ctx):
+    """the public array API function by function against the NumPy function of the same meaning
+    (harness/apitable.py): (1) the graph pytato builds, evaluated by the reference evaluator, (2) the generated
+    loopy code — both vs NumPy applied to the same inputs.  Every other reference follows pytato's own graph."""
+    import pytato as pt
+    from .. import apitable
+    cs = apitable.cases(ctx.seed, ctx.thorough)
+    jobs, meta = [], []
+    dis = rejected = np_rejects = nchecked = 0
+    fam: dict[str, int] = {}
+    with np.errstate(all="ignore"):
+        for c in cs:
+            inp = c["inputs"]
+            try:
+                ref = np.asarray(c["ref"](**inp))
+            except Exception:   # noqa: BLE001
+                np_rejects += 1
+                continue
+            phs = {k: pt.make_placeholder(k, v.shape, v.dtype) for k, v in inp.items()}
+            try:
+                node = c["build"](**phs)
+            except Exception as e:   # noqa: BLE001
+                rejected += 1       # what pytato rejects and NumPy accepts is allowed (C03); counted
+                ctx.coverage.setdefault("api_table_rejected", {})[c["label"]] = type(e).__name__
+                continue
+            if not isinstance(node, pt.Array):
+                node_val = np.asarray(node)
+                if not _num_close(node_val, ref, c.get("exact", False)):
+                    dis += 1
+                    ctx.violation(f"api-semantics:scalar-result:{c['label'].split(':')[0]}",
+                                  f"{c['label']}: pytato returns {node_val!r}, NumPy {ref!r}", {"call": c["label"]})
+                continue
+            fam[c["family"]] = fam.get(c["family"], 0) + 1
+            fn = c["label"].split(":")[0]
+            if tuple(int(d) for d in node.shape) != ref.shape:
+                dis += 1
+                ctx.violation(f"api-semantics:shape:{fn}", f"{c['label']}: pytato infers shape {node.shape}, NumPy gives "
+                              f"{ref.shape}", {"call": c["label"]})
+                continue
+            expr = pt.make_dict_of_named_arrays({"o": node})
+            try:
+                gv = evaluate(expr, inp)["o"]
+            except Exception as e:   # noqa: BLE001
+                ctx.broken.append(f"refeval:api-table:{c['label']}:{type(e).__name__}:{str(e)[:60]}")
+                continue
+            if not _num_close(gv, ref, c.get("exact", False)):
+                dis += 1
+                bad = np.argwhere(~np.isclose(np.asarray(gv, dtype=np.complex128), np.asarray(ref, dtype=np.complex128),
+                                              equal_nan=True))[:3].tolist() if gv.shape == ref.shape else []
+                ctx.violation(f"api-semantics:graph:{fn}",
+                              f"{c['label']}: the graph pytato builds denotes {np.asarray(gv).reshape(-1)[:6].tolist()}…, NumPy's "
+                              f"{fn} gives {ref.reshape(-1)[:6].tolist()}… (first differing positions {bad})",
+                              {"call": c["label"], "inputs": {k: np.asarray(v).tolist() for k, v in inp.items()},
+                               "graph_value": np.asarray(gv).tolist(), "numpy": ref.tolist()})
+                continue
+            nchecked += 1
+            if ctx.thorough or nchecked % 3 == ctx.seed % 3:
+                # (the generated code vs the graph is what the program streams check; here a third per run)
+                jobs.append(cexec.Job(tag=f"api:{c['label']}", expr=expr, runs=[inp], prep=_prep_dedup))
+                meta.append((c, ref))
+        res = cexec.run_jobs(ctx, jobs)
+        unsupported: dict[str, int] = {}
+        for (c, ref), r in zip(meta, res):
+            fn = c["label"].split(":")[0]
+            if r.error:
+                if str(r.stage).startswith("c-"):
+                    k = f"{r.stage}:{r.error_class}"
+                    unsupported[k] = unsupported.get(k, 0) + 1
+                    continue
+                if r.error_class == "NotImplementedError" or (r.error_class == "LoopyTypeError"
+                                                               and "does not support type" in (r.error or "")):
+                    # loopy has no implementation of this function for this operand type (complex asin, isnan …):
+                    # outside the fragment loopy can generate code for; the graph semantics was checked above
+                    k = f"{r.stage}:{r.error_class}:{fn}"
+                    unsupported[k] = unsupported.get(k, 0) + 1
+                    continue
+                dis += 1
+                ctx.violation(f"api-semantics:codegen-fails:{fn}:{r.error_class}",
+                              f"{c['label']}: {r.stage} failed: {r.error[:300]}", {"call": c["label"], "error": r.error})
+                continue
+            got = r.outputs[0].get("o")
+            if got is None and ref.size == 0:
+                continue
+            if got is None or not _num_close(got, ref, c.get("exact", False)):
+                dis += 1
+                ctx.violation(f"api-semantics:generated-code:{fn}",
+                              f"{c['label']}: generated code gives {None if got is None else np.asarray(got).reshape(-1)[:6].tolist()}…, "
+                              f"NumPy {ref.reshape(-1)[:6].tolist()}…",
+                              {"call": c["label"], "inputs": {k: np.asarray(v).tolist() for k, v in c["inputs"].items()}})
+    ctx.note_batch("api-table-vs-numpy-functions", len(cs), dis, exhaustive=False, families=fam,
+                   pytato_rejects=rejected, numpy_rejects=np_rejects, graph_checked=nchecked, executed=len(jobs), executor_unsupported=unsupported)
 
 
 def run(ctx: common.Ctx):
@@ -277,6 +405,7 @@ def run(ctx: common.Ctx):
         c01_kernel.run_kernel_model(ctx, progs, results)
     batch_special_values(ctx)
     batch_special_value_table(ctx)
+    batch_api_table(ctx)
     ctx.broken = sorted(set(ctx.broken))[:50]
 
 
